@@ -126,6 +126,37 @@ def layout_byte_steps(case, rt):
     return [[env[step_ops[(d, k)].results[0]] for k in range(len(t))] for d, t in enumerate(case["dims"][:len(rt)])]
 
 
+def reference_byte_steps(dims, el, rt):
+    """What the `?` steps of a tiled-strided layout MEAN (the contiguity rule of the layout, harness-side reference,
+    independent of snaxc): a static step s is s*el bytes; the dynamic steps lie, innermost first and from the last
+    dimension to the first, contiguously on top of the block spanned by the largest static step (first one in
+    (dim, depth) order on ties): first `?` = bound*step*el of that stride (el if the layout has no static step), every
+    further `?` = previous `?` step * bound of that previous stride. A dynamic outermost bound is extent // inner tile
+    (the floor of the code, so that the only deviation on the unchanged tree stays the separately attributed D32)."""
+    bounds = []
+    for d, t in enumerate(dims[:len(rt)]):
+        inner = 1
+        for _, b in t:
+            inner *= (b or 1)
+        bounds.append([rt[d] // inner if b is None else b for _, b in t])
+    flat = [(d, k) for d, t in enumerate(dims[:len(rt)]) for k in range(len(t))]
+    best, best_step = None, 0
+    for (d, k) in flat:
+        st = dims[d][k][0]
+        if st and st > best_step:
+            best, best_step = (d, k), st
+    run = el if best is None else bounds[best[0]][best[1]] * best_step * el
+    steps = [[None] * len(t) for t in dims[:len(rt)]]
+    for (d, k) in reversed(flat):
+        st = dims[d][k][0]
+        if st is not None:
+            steps[d][k] = st * el
+        else:
+            steps[d][k] = run
+            run = run * bounds[d][k]
+    return steps
+
+
 def size_src(case):
     tshape = case["tshape"]
     ndyn = sum(1 for s in tshape if s is None)
@@ -195,6 +226,24 @@ def gen_size_case(rng, big=False):
         elif q < 0.2 and all(n is not None for n in tshape):
             case["strided"] = True
         return case
+    # deliberate family: dynamic shape, element wider than one byte, static steps that ascend in (dim, depth) order
+    # with small ratios, `?` steps on top (e.g. memref<4x?xi32, [4] -> (1), [?, 4] -> (?, 4)>): the seed of the `?`
+    # steps is the LAST static stride, and bytes vs elements matter when it is found
+    if rng.random() < 0.1:
+        el = rng.choice(["i16", "i32", "i32", "i64", "f32", "f64", "f64", "i20", "i33"])
+        rank = rng.choice([2, 2, 3])
+        dims, tshape, rt, cur = [], [], [], 1
+        for d in range(rank - 1):
+            b = rng.choice([2, 3, 4, 4, 8])
+            dims.append([[cur, b]])
+            tshape.append(b)
+            rt.append(b)
+            cur *= b * rng.choice([1, 1, 2])
+        bi = rng.choice([2, 4, 4, 8])
+        dims.append([[None, None], [cur, bi]])
+        tshape.append(None)
+        rt.append(bi * rng.choice([1, 2, 5, 10]))
+        return {"kind": "size", "el": el, "dims": dims, "offset": rng.choice([0, 0, 3]), "tshape": tshape, "rt": rt, "space": "L1"}
     # deliberate family: fully static DENSE layouts (a permutation of a contiguous buffer: no gaps, no `?`) that
     # carry a non-zero layout offset -- the offset is the only thing that makes them larger than prod(shape)*el
     dense = rng.random() < 0.15
@@ -301,12 +350,31 @@ def render_ops(ops, types, ind, lines, l1=False):
         elif k == "use":
             srcs = op[1]
             lines.append(f'{pad}"test.op"({", ".join("%" + s for s in srcs)}) : ({", ".join(types[s] for s in srcs)}) -> ()')
+        elif k == "for" and len(op) == 4:
+            # loop that carries a buffer: iter_arg initialised with op[2], the terminator scf.yield forwards op[3]
+            n = len(lines)
+            lines.append(f'{pad}%r{n} = "scf.for"(%c0, %c16, %c1, %{op[2]}) ({{')
+            lines.append(f"{pad}^bb{ind}(%i{n} : index, %acc{n} : {M}):")
+            render_ops(op[1], types, ind + 1, lines, l1)
+            lines.append(f'{pad}  "scf.yield"(%{op[3]}) : ({M}) -> ()')
+            lines.append(f"{pad}}}) : (index, index, index, {M}) -> {M}")
         elif k == "for":
             lines.append(f'{pad}"scf.for"(%c0, %c16, %c1) ({{')
             lines.append(f"{pad}^bb{ind}(%i{len(lines)} : index):")
             render_ops(op[1], types, ind + 1, lines, l1)
             lines.append(f'{pad}  "scf.yield"() : () -> ()')
             lines.append(f"{pad}}}) : (index, index, index) -> ()")
+        elif k == "if" and len(op) == 5:
+            # conditional with a result: the terminators scf.yield forward the buffers op[3] / op[4]
+            n = len(lines)
+            lines.append(f'{pad}%cond{n} = "test.op"() : () -> i1')
+            lines.append(f'{pad}%r{n} = "scf.if"(%cond{n}) ({{')
+            render_ops(op[1], types, ind + 1, lines, l1)
+            lines.append(f'{pad}  "scf.yield"(%{op[3]}) : ({M}) -> ()')
+            lines.append(f"{pad}}}, {{")
+            render_ops(op[2], types, ind + 1, lines, l1)
+            lines.append(f'{pad}  "scf.yield"(%{op[4]}) : ({M}) -> ()')
+            lines.append(f"{pad}}}) : (i1) -> {M}")
         elif k == "if":
             lines.append(f'{pad}%cond{len(lines)} = "test.op"() : () -> i1')
             lines.append(f'{pad}"scf.if"(%cond{len(lines) - 1}) ({{')
@@ -321,14 +389,23 @@ def render_ops(ops, types, ind, lines, l1=False):
 
 
 def prog_src(case):
-    lines = ["builtin.module {", "  func.func public @f(%n : index) {", "    %c0 = arith.constant 0 : index",
-             "    %c1 = arith.constant 1 : index", "    %c16 = arith.constant 16 : index"]
-    render_ops(case["body"], {}, 2, lines, bool(case.get("l1")))
+    body = case["body"]
+    ret = []
+    if body and body[-1][0] == "ret":  # the function returns buffers: the terminator func.return uses them
+        ret, body = body[-1][1], body[:-1]
+    lines = ["    %c0 = arith.constant 0 : index", "    %c1 = arith.constant 1 : index", "    %c16 = arith.constant 16 : index"]
+    types = {}
+    render_ops(body, types, 2, lines, bool(case.get("l1")))
     if case.get("blocks", 1) == 2:
         # a function body with two blocks: MiniMallocate returns without doing anything
         lines += ['    "cf.br"() [^tail] : () -> ()', "  ^tail:"]
-    lines += ["    func.return", "  }", "}"]
-    return "\n".join(lines)
+    rtypes = ", ".join(types[v] for v in ret)
+    if ret:
+        lines.append(f'    func.return {", ".join("%" + v for v in ret)} : {rtypes}')
+    else:
+        lines.append("    func.return")
+    head = ["builtin.module {", f"  func.func public @f(%n : index){' -> (' + rtypes + ')' if ret else ''} {{"]
+    return "\n".join(head + lines + ["  }", "}"])
 
 
 def gen_body(rng, mems, mode, big=False, l1=False):
@@ -398,15 +475,31 @@ def gen_body(rng, mems, mode, big=False, l1=False):
                 if srcs:
                     ops.append(["use", srcs])
             elif r < 0.93:
-                ops.append(["for", gen_block(depth + 1, local, rng.randint(1, 3))])
+                inner = gen_block(depth + 1, local, rng.randint(1, 3))
+                a, b = pick(local, {"M"}), pick(local, {"M"})
+                if a is not None and rng.random() < 0.35:
+                    ops.append(["for", inner, a[0], b[0]])  # the loop carries a buffer, scf.yield forwards one
+                else:
+                    ops.append(["for", inner])
             else:
-                ops.append(["if", gen_block(depth + 1, local, rng.randint(0, 2)), gen_block(depth + 1, local, rng.randint(0, 2))])
+                t, e = gen_block(depth + 1, local, rng.randint(0, 2)), gen_block(depth + 1, local, rng.randint(0, 2))
+                a, b = pick(local, {"M"}), pick(local, {"M"})
+                if a is not None and rng.random() < 0.35:
+                    ops.append(["if", t, e, a[0], b[0]])  # the conditional yields a buffer from either branch
+                else:
+                    ops.append(["if", t, e])
         if depth == 0:
             # make the tail busy: late uses of early values are what lifetimes are about
             for _ in range(rng.randint(0, 3)):
                 s = pick(local)
                 if s is not None:
                     ops.append(["use", [s[0]]])
+            # deliberate family: lifetimes that end at a terminator -- the function returns buffers (or casts / views)
+            # whose last ordinary use lies before later allocations
+            if local and rng.random() < 0.3:
+                early = local[:max(1, len(local) // 2)]
+                rets = [rng.choice(early)[0]] + ([rng.choice(local)[0]] if rng.random() < 0.4 else [])
+                ops.append(["ret", rets])
         return ops
 
     body = gen_block(0, [], rng.randint(3, 28 if big else 14))
@@ -423,6 +516,7 @@ def walk_allocs(ops):
         elif op[0] == "if":
             yield from walk_allocs(op[1])
             yield from walk_allocs(op[2])
+        # ("ret" and the yielded values of for/if define nothing)
 
 
 def tighten_mems(rng, mems, body):
@@ -936,6 +1030,9 @@ class C11(Prop):
         # AllocOpRewrite emitted: the size may be computed by any chain of ops, or be a single constant);
         # tile bounds as declared; for static layouts additionally the repo's own affine map of the layout
         steps = layout_byte_steps(case, rt)
+        # ... and as the contiguity rule of the layout defines them (own reference): the size must hold the footprint
+        # under BOTH, so a wrong step helper cannot vouch for a size that was computed with it
+        ref_steps = reference_byte_steps(dims, el, rt)
         decl = [[b for _, b in t] for t in dims[:len(rt)]]
         amap = None
         if all(s is not None and b is not None for t in dims for s, b in t) and len(dims) == len(rt):
@@ -956,15 +1053,18 @@ class C11(Prop):
         worst_inside = None
         for idx in pts:
             addr = 0
+            raddr = 0
             for d, i in enumerate(idx):
                 bs = [1 if b is None else b for b in decl[d]]
-                for dg, st in zip(digits(bs, i), steps[d]):
+                dgs = digits(bs, i)
+                for dg, st, rst in zip(dgs, steps[d], ref_steps[d]):
                     addr += dg * st
+                    raddr += dg * rst
             if amap is not None:
                 a2 = amap.eval(list(idx), [])[0] * el
                 if a2 != addr:
                     return [{"what": f"address of {idx}: the layout's step ops give byte {addr}, its affine map {a2}", "finding": None}]
-            end = case["offset"] * el + addr + el
+            end = case["offset"] * el + max(addr, raddr) + el
             if end > size and (worst is None or end > worst[1]):
                 worst = (idx, end)
             if end > size and worst_inside is None and all(i < c for i, c in zip(idx, covered)):
@@ -1035,7 +1135,7 @@ class C11(Prop):
                 live_b = [t for t in B["all"] if t >= B["s"]]
                 if live_a and live_b:
                     only_views = not [t for t in A["orig"] if t >= B["s"]]
-                    res.append({"what": f"buffer {i} (alloc at op {A['s']}, [{A['addr']},+{A['size']})) is still used at op {max(live_a)} "
+                    res.append({"what": f"buffer {i} (alloc at op {A['s']}, [{A['addr']},+{A['size']})) is still used at op {max(live_a)} ({ops[max(live_a)].name}) "
                                         f"but buffer {j} (alloc at op {B['s']}) got [{B['addr']},+{B['size']})"
                                         + (" — the late use is through a view / second-level cast" if only_views else ""),
                                 "finding": "D13" if only_views else None})
@@ -1119,9 +1219,11 @@ class C11(Prop):
                 elif op[0] == "use":
                     u.update(op[1])
                 elif op[0] == "for":
-                    u |= used(op[1])
+                    u |= used(op[1]) | set(op[2:])
                 elif op[0] == "if":
-                    u |= used(op[1]) | used(op[2])
+                    u |= used(op[1]) | used(op[2]) | set(op[3:])
+                elif op[0] == "ret":
+                    u.update(op[1])
             return u
 
         for i in range(len(body)):
@@ -1131,8 +1233,15 @@ class C11(Prop):
         for i, op in enumerate(body):
             if op[0] == "for":
                 yield dict(case, body=body[:i] + op[1] + body[i + 1:])
+                if len(op) == 4:
+                    yield dict(case, body=body[:i] + [op[:2]] + body[i + 1:])
             if op[0] == "if":
                 yield dict(case, body=body[:i] + op[1] + op[2] + body[i + 1:])
+                if len(op) == 5:
+                    yield dict(case, body=body[:i] + [op[:3]] + body[i + 1:])
+            if op[0] == "ret" and len(op[1]) > 1:
+                yield dict(case, body=body[:i] + [["ret", op[1][:1]]] + body[i + 1:])
+                yield dict(case, body=body[:i] + [["ret", op[1][1:]]] + body[i + 1:])
         if len(case["mems"]) > 1 and not any(op[0] == "alloc" and op[2] not in (0, None, -1) for op in body):
             yield dict(case, mems=case["mems"][:1])
 
